@@ -20,6 +20,7 @@ pub fn render_block(case: &Value) -> String {
         case["edges"].as_array().unwrap().iter().map(|e| (e[0].as_u64().unwrap() as usize, e[1].as_u64().unwrap() as usize)).collect();
     let pos: Vec<usize> = case["pos"].as_array().unwrap().iter().map(|p| p.as_u64().unwrap() as usize).collect();
     let deps = |i: usize| -> Vec<usize> { edges.iter().filter(|e| e.0 == i).map(|e| e.1).collect() };
+    let site = case["site"].as_str().unwrap_or("rhs").to_string();
     let mut body = String::from("  begin\n");
     for &i in &pos {
         match kinds[i - 1].as_str() {
@@ -46,7 +47,8 @@ pub fn render_block(case: &Value) -> String {
                 for d in deps(i) {
                     match kinds[d - 1].as_str() {
                         | "def" => s.push_str(&format!("let u{d} : D{d} = +C{d}() in ")),
-                        | "ty" => s.push_str(&format!("let u{d} : T{d} = 1 in ")),
+                        | "ty" if site == "rhs" => s.push_str(&format!("let u{d} : T{d} = 1 in ")),
+                        | "ty" => {}
                         | "val" => {
                             s.push_str(&format!("do r{k} <- ! t{d}; do s{k} <- ! (int64/add) {acc} r{k}; "));
                             acc = format!("s{k}");
@@ -59,7 +61,20 @@ pub fn render_block(case: &Value) -> String {
                         }
                     }
                 }
-                body.push_str(&format!("    let t{i} : Thk (Ret Int64) = {{ {s}ret {acc} }} that\n"));
+                // type aliases mentioned in an annotation instead of the right-hand side (every alias is Int64 in the end)
+                let tys: Vec<usize> = deps(i).into_iter().filter(|d| kinds[d - 1] == "ty").collect();
+                let ann = match tys.as_slice() {
+                    | [] => "Thk (Ret Int64)".to_string(),
+                    | [a] => format!("Thk (Ret T{a})"),
+                    | [a, rest @ ..] => format!("Thk ({}Ret T{a})", rest.iter().map(|_| String::new()).collect::<String>()),
+                };
+                // more than one alias: the others go into a product the thunk does not use: Thk (Ret T_a) with a phantom let
+                let extra: String = if site != "rhs" { tys.iter().skip(1).map(|d| format!("let u{d} : T{d} = 1 in ")).collect() } else { String::new() };
+                match site.as_str() {
+                    | "ann" if !tys.is_empty() => body.push_str(&format!("    let t{i} : {ann} = {{ {extra}{s}ret {acc} }} that\n")),
+                    | "pat" if !tys.is_empty() => body.push_str(&format!("    let (t{i} : {ann}) = {{ {extra}{s}ret {acc} }} that\n")),
+                    | _ => body.push_str(&format!("    let t{i} : Thk (Ret Int64) = {{ {s}ret {acc} }} that\n")),
+                }
             }
         }
     }
